@@ -236,9 +236,17 @@ def closest_violations(t: Table, buckets: list, targets: list, kset, stats: dict
             elif sorted(got) == sorted(want):
                 out.append(("closest:order", desc))
             else:
-                missing = [i for i in want if i not in got]
-                twins = [i for i in missing if any(j != i and key_of[j] == key_of[i] for j in key_of)]
-                if missing and len(twins) == len(missing) and len(set(got)) == len(got):
+                # Is the answer exact except that entries sharing a public key with another entry were merged away?
+                full = ref.closest(buckets, target, len(live))
+                has_twin = {i for i in full if any(j != i and key_of[j] == key_of[i] for j in key_of)}
+                dropped: set = set()
+                while True:
+                    rest = [i for i in full if i not in dropped][:k]
+                    more = {i for i in rest if i not in got}
+                    if not more or not more <= has_twin:
+                        break
+                    dropped |= more
+                if dropped and got == rest:
                     out.append(("closest:same-key-entry-dropped", desc + " (the missing entry has the same public key "
                                                                          "as another entry with a different identifier)"))
                 else:
